@@ -316,3 +316,310 @@ def features_cache(c, io):
             for x in o["state"]:
                 f["cache:flag:%s" % x["mono"]] = 1
     return f
+
+
+# ================================================================================================ grouped axes (op "gcache")
+"""Stratum `gcache`: histories on real `MultiAxis` objects - built directly (`MultiAxis(x, y)`: members by reference) or
+through `DimArray(...).flatten(dims)` (members are copies) - compared after EVERY step with the Lean state machine
+`GroupedCache.step` (lean/DimModel/Lib/GroupedCache.lean): result, labels / name of every plain axis, and for every
+grouped axis its members (object identity -> index in the heap of plain axes), cached `_name`, `_values`, `_size`.
+Class P (independent of the model): a cached field differs from what a fresh MultiAxis of the same members computes."""
+from dimarray.core.axes import MultiAxis
+
+# OPEN (reported): a MultiAxis keeps references to its members and caches tuple labels / joined name: relabelling or renaming
+# a member (`b.axes[0].axes[0][0] = 9` on a flattened array, or the operand of a direct `MultiAxis(x, y)`) after the
+# labels were read leaves the cache stale.  While open, histories do not relabel / rename a member of a live grouped axis
+# (GroupedCache.Safe); Lean: grouped_stale_after_member_relabel_counterexample, grouped_name_stale_after_member_rename_counterexample.
+SKIP_GROUPED_MEMBER_MUTATION = True
+# OPEN (reported): `g.take(...)` / `g[pos] = t` read the private `_values` : AttributeError until `g.values` was read once;
+# an accepted `g[pos] = t` rewrites the cached tuples only.  While open, `take` follows a read and `set_item` is not generated.
+SKIP_GROUPED_PRIVATE_VALUES = True
+
+
+def gen_grouped_hist(rng, tier):
+    names, kinds, members, has_vals = [], [], [], []      # generator-side bookkeeping of the heap (all generated operations succeed)
+    ops = []
+
+    def mk():
+        fam = rng.choice(["i", "i", "O"])
+        n = rng.randint(1, 3)
+        L = _enc_list(rng.sample(NUM_U if fam == "i" else STR_U, n))
+        nm = "p%d" % len(names)
+        ops.append(["mk_plain", L, nm, fam])
+        names.append(nm)
+        kinds.append(fam)
+
+    for _ in range(rng.randint(2, 3)):
+        mk()
+
+    def pick_members():
+        k = rng.randint(2, min(3, len(names)))
+        for _ in range(20):
+            ms = rng.sample(range(len(names)), k)
+            if len({names[m] for m in ms}) == k:
+                return ms
+        return None
+
+    def is_member(p):
+        return any(p in m for m in members)
+
+    for _ in range(rng.randint(3, 9 if tier == "quick" else 14)):
+        t = rng.choice(["group", "flatten_from", "read_labels", "read_labels", "read_size", "read_name", "relabel_member", "relabel_member",
+                        "rename_member", "slice", "slice", "take", "copy", "unflatten", "mk_plain", "set_item"])
+        if not members and t not in ("group", "flatten_from", "mk_plain", "relabel_member", "rename_member"):
+            t = rng.choice(["group", "flatten_from"])
+        if t == "mk_plain":
+            mk()
+        elif t in ("group", "flatten_from"):
+            ms = pick_members()
+            if ms is None:
+                continue
+            ops.append([t, ms])
+            if t == "group":
+                members.append(ms)
+            else:
+                n = len(names)
+                names.extend(names[m] for m in ms)
+                kinds.extend(kinds[m] for m in ms)
+                members.append(list(range(n, n + len(ms))))
+            has_vals.append(False)
+        elif t in ("relabel_member", "rename_member"):
+            cand = [p for p in range(len(names)) if not (SKIP_GROUPED_MEMBER_MUTATION and is_member(p))]
+            if not cand:
+                continue
+            p = rng.choice(cand)
+            if t == "relabel_member":
+                ops.append([t, p, rng.choice([0, 1, -1, 2, 5]), _new_label(kinds[p], len(ops))])
+            else:
+                nm = "r%d" % len(ops)
+                ops.append([t, p, nm])
+                names[p] = nm
+        else:
+            g = rng.randrange(len(members))
+            if t in ("read_labels", "read_size", "read_name", "unflatten"):
+                ops.append([t, g])
+                if t == "read_labels":
+                    has_vals[g] = True
+            elif t == "slice":
+                ops.append([t, g, _oi(rng), _oi(rng), rng.choice([None, None, 1, -1, 2, -2])])
+                if ops[-1][2:] != [None, None, None]:
+                    has_vals[g] = True
+            elif t == "take":
+                if SKIP_GROUPED_PRIVATE_VALUES and not has_vals[g]:
+                    ops.append(["read_labels", g])
+                    has_vals[g] = True
+                ops.append([t, g, [rng.choice([0, 1, -1, 2]) for _ in range(rng.randint(0, 3))]])
+            elif t == "set_item":
+                if SKIP_GROUPED_PRIVATE_VALUES:
+                    continue
+                ops.append([t, g, rng.choice([0, 1, -1]), _enc_list([7, 7, 7][:len(members[g])])])
+            elif t == "copy":
+                ops.append([t, g])
+                n = len(names)
+                names.extend(names[m] for m in members[g])
+                kinds.extend(kinds[m] for m in members[g])
+                members.append(list(range(n, n + len(members[g]))))
+                has_vals.append(has_vals[g])
+    return {"op": "gcache", "ops": ops, "theme": "random"}
+
+
+def gen_grouped_fixed():
+    """deterministic histories: the safe neighbours of the two open defects (run in every tier), and - when the flags are
+    lifted - the defects themselves"""
+    pre = [["mk_plain", _enc_list([1, 2]), "x", "i"], ["mk_plain", _enc_list(["a", "b", "c"]), "y", "O"]]
+    for make in ("group", "flatten_from"):
+        src_safe = make == "flatten_from"       # after flatten the source axes (0, 1) are not members: relabelling them is safe
+        yield {"op": "gcache", "theme": "fixed", "ops": pre + [[make, [0, 1]], ["read_size", 0], ["read_name", 0], ["read_labels", 0],
+               ["slice", 0, None, None, -2], ["take", 0, [0, -1]], ["copy", 0], ["read_labels", 1], ["unflatten", 1]]}
+        if src_safe or not SKIP_GROUPED_MEMBER_MUTATION:
+            yield {"op": "gcache", "theme": "fixed", "ops": pre + [[make, [1, 0]], ["relabel_member", 0, 0, gen.enc(9)], ["rename_member", 1, "w"],
+                   ["read_labels", 0], ["read_name", 0], ["unflatten", 0]]}
+        if src_safe or not SKIP_GROUPED_MEMBER_MUTATION:
+            yield {"op": "gcache", "theme": "fixed", "ops": pre + [[make, [0, 1]], ["read_labels", 0], ["relabel_member", 0, 0, gen.enc(9)],
+                   ["rename_member", 1, "w"], ["read_labels", 0], ["read_name", 0], ["unflatten", 0]]}
+        if not SKIP_GROUPED_MEMBER_MUTATION:
+            m0 = 2 if make == "flatten_from" else 0
+            yield {"op": "gcache", "theme": "fixed", "ops": pre + [[make, [0, 1]], ["read_labels", 0], ["relabel_member", m0, 0, gen.enc(9)],
+                   ["read_labels", 0], ["unflatten", 0]]}
+            yield {"op": "gcache", "theme": "fixed", "ops": pre + [[make, [0, 1]], ["rename_member", m0, "q"], ["read_name", 0], ["unflatten", 0]]}
+        if not SKIP_GROUPED_PRIVATE_VALUES:
+            yield {"op": "gcache", "theme": "fixed", "ops": pre + [[make, [0, 1]], ["take", 0, [0]], ["read_labels", 0], ["take", 0, [0]]]}
+            yield {"op": "gcache", "theme": "fixed", "ops": pre + [[make, [0, 1]], ["set_item", 0, 0, _enc_list([7, 7])], ["read_labels", 0],
+                   ["set_item", 0, 0, _enc_list([7, 7])], ["read_labels", 0], ["unflatten", 0]]}
+
+
+def gen_grouped(rng, tier):
+    for c in gen_grouped_fixed():
+        yield c
+    for _ in range(300 if tier == "quick" else 4000):
+        yield gen_grouped_hist(rng, tier)
+
+
+def _tuples(vals):
+    return [[gen.enc(x.item() if hasattr(x, "item") else x) for x in t] for t in vals.tolist()]
+
+
+def _new_label(kind, k):
+    """a label of the axis' own kind that differs from every present one"""
+    return gen.enc("z%d" % k if kind == "O" else 90 + k)
+
+
+def run_grouped(c):
+    plain, grouped, keep, out = [], [], [], []
+
+    def pidx(ax):
+        k = [n for n, o in enumerate(plain) if o is ax]
+        return k[0] if k else None
+
+    def add_grouped(g):
+        for m in g.axes:
+            if pidx(m) is None:
+                plain.append(m)
+        grouped.append(g)
+        return {"gref": len(grouped) - 1}
+
+    for n, st in enumerate(c["ops"]):
+        t = st[0]
+        st = list(st)
+
+        def body():
+            if t == "mk_plain":
+                plain.append(Axis(core.label_array(st[1], st[3]), st[2]))
+                return {"pref": len(plain) - 1}
+            if t == "group":
+                return add_grouped(MultiAxis(*[plain[m % len(plain)] for m in st[1]]))
+            if t == "flatten_from":
+                axs = [plain[m % len(plain)] for m in st[1]]
+                a = DimArray(np.zeros([ax.size for ax in axs]), axes=axs)
+                assert all(x is y for x, y in zip(a.axes, axs))      # the source array holds these very objects
+                b = a.flatten(tuple(ax.name for ax in axs))
+                keep.append((a, b))
+                return add_grouped(b.axes[0])
+            if t in ("relabel_member", "rename_member"):
+                ax = plain[st[1] % len(plain)]
+                if t == "rename_member":
+                    ax.name = st[2]
+                    return {"unit": None}
+                ax[st[2]] = core.dec_label(st[3], "O" if ax.values.dtype.kind == "O" else "i")
+                return {"unit": None}
+            g = grouped[st[1] % len(grouped)]
+            if t == "read_labels":
+                return {"tuples": _tuples(g.values)}
+            if t == "read_size":
+                return {"nat": int(g.size)}
+            if t == "read_name":
+                return {"name": g.name}
+            if t == "slice":
+                r = g[slice(st[2], st[3], st[4])]
+                if r is g:
+                    return {"gref": st[1] % len(grouped)}
+                assert type(r) is Axis and r.name == g.name
+                return {"tuples": _tuples(r.values)}
+            if t == "take":
+                r = g.take(np.array(st[2], dtype=int))
+                return {"tuples": _tuples(r.values)}
+            if t == "set_item":
+                g[st[2]] = tuple(core.dec_label(x, "i") for x in st[3])
+                return {"unit": None}
+            if t == "copy":
+                return add_grouped(g.copy())
+            if t == "unflatten":
+                res = {"members": [{"labels": [gen.enc(v) for v in m.values.tolist()], "name": m.name} for m in g.axes]}
+                for (a, b) in keep:                      # the owning array, when there is one, must agree
+                    if b.axes[0] is g:
+                        u = b.unflatten()
+                        got = [{"labels": [gen.enc(v) for v in ax.values.tolist()], "name": ax.name} for ax in u.axes]
+                        if got != res["members"]:
+                            res["unflatten_differs"] = got
+                return res
+            raise ValueError(t)
+
+        try:
+            res = body()
+        except Exception as e:  # noqa
+            res = {"err": core.exc_class(e), "msg": "%s: %s" % (type(e).__name__, str(e)[:120])}
+        stale = []
+        for k, g in enumerate(grouped):
+            f = MultiAxis(*list(g.axes))
+            if g._values is not None and _tuples(g._values) != _tuples(f.values):
+                stale.append("labels:%d" % k)
+            if g._size is not None and int(g._size) != int(f.size):
+                stale.append("size:%d" % k)
+            if g.name != f.name:
+                stale.append("name:%d" % k)
+        out.append({"res": res, "stale": stale,
+                    "plain": [{"labels": [gen.enc(v) for v in ax.values.tolist()], "name": ax.name} for ax in plain],
+                    "grouped": [{"members": [pidx(m) for m in g.axes], "name": g._name,
+                                 "vals": None if g._values is None else _tuples(g._values),
+                                 "size": None if g._size is None else int(g._size)} for g in grouped]})
+    return {"ok": out}
+
+
+def request_grouped(c):
+    ops = c["ops"]
+    return {"op": "grouped_cache", "ops": [o[:3] if o[0] == "mk_plain" else o for o in ops]}
+
+
+def judge_grouped(c, io, ans):
+    if "err" in io:
+        return {"kind": "M", "differs": ["outcome:" + io["err"]], "msg": io.get("msg")}
+    bad, detail = [], {}
+    for n, (o, l) in enumerate(zip(io["ok"], ans["lib"])):
+        here = ["P.stale_grouped_cache:" + q.split(":")[0] for q in o["stale"]]
+        if "unflatten_differs" in o["res"]:
+            here.append("P.unflatten_differs_from_members")
+        ro = {k: v for k, v in o["res"].items() if k not in ("msg", "unflatten_differs")}
+        if ro != l["res"]:
+            here.append("result")
+        for k in ("plain", "grouped"):
+            if o[k] != l[k]:
+                here.append("state." + k)
+        if bool(o["stale"]) == l["coherent"]:
+            here.append("coherent_flag")
+        if here:
+            bad += here
+            detail.setdefault("first", {"step": n, "op": c["ops"][n], "impl": o, "lean": l})
+    if not bad:
+        return None
+    p = [b for b in bad if b.startswith("P.")]
+    return {"kind": "P" if p else "M", "differs": sorted(set(bad)), "detail": detail}
+
+
+def features_grouped(c, io):
+    f = {"op": "gcache", "theme": c.get("theme"), "nsteps": len(c["ops"])}
+    if "ok" in io:
+        for st, o in zip(c["ops"], io["ok"]):
+            f["gcache:" + st[0] + (":err" if "err" in o["res"] else "")] = 1
+            for g in o["grouped"]:
+                f["gcache:vals:%s" % (g["vals"] is not None)] = 1
+                f["gcache:size:%s" % (g["size"] is not None)] = 1
+        f["gcache:ngrouped"] = len(io["ok"][-1]["grouped"])
+    return f
+
+
+# ------------------------------------------------------------------------------------------------ dispatch for props/c05.py
+OPS = ("cache", "gcache")
+_run_cache, _request_cache, _judge_cache, _features_cache, _gen_cache = run_cache, request_cache, judge_cache, features_cache, gen_cache
+
+
+def gen_cache(rng, tier):
+    for c in _gen_cache(rng, tier):
+        yield c
+    for c in gen_grouped(rng, tier):
+        yield c
+
+
+def run_cache(c):
+    return run_grouped(c) if c["op"] == "gcache" else _run_cache(c)
+
+
+def request_cache(c):
+    return request_grouped(c) if c["op"] == "gcache" else _request_cache(c)
+
+
+def judge_cache(c, io, ans):
+    return judge_grouped(c, io, ans) if c["op"] == "gcache" else _judge_cache(c, io, ans)
+
+
+def features_cache(c, io):
+    return features_grouped(c, io) if c["op"] == "gcache" else _features_cache(c, io)
